@@ -1,6 +1,7 @@
 #![allow(dead_code)]
 mod c05;
 mod c06;
+mod c08;
 mod c10;
 mod c11;
 mod consumer;
@@ -56,6 +57,8 @@ fn main() {
         "c12" => c12::run(&out, &tier, seed, shards, replay),
         "c17" => c17::run(&out, &tier, seed, shards, replay),
         "worker" => c17::worker(&args[2]),
+        "c08" => c08::run(&out, &tier, seed, shards, replay),
+        "c08worker" => c08::worker(&args[2], &args[3]),
         "c11" => c11::run(&out, &tier, seed, shards, replay),
         other => {
             eprintln!("unknown command {}", other);
